@@ -1,6 +1,6 @@
 """C04 — the signature is the protocol's double CRC-16 for every byte string."""
 import binascii
-import lib
+import lib, world
 from aioswitcher.device.tools import sign_packet_with_crc_key
 COQ_TARGET = "C04"
 TRUSTED = ["binascii.crc_hqx is modelled by the table-driven CRC of CPython's binascii.c (compared on every case of this run "
@@ -194,6 +194,10 @@ def run(tier, rnd, out):
     frozen_clock(out, rnd, cs)
     other_types_then_str(out, rnd)
     threads(out, rnd, 20000 if tier == "quick" else 300000)
+    # ... and as the first signatures a fresh interpreter computes, asked for by several threads at once
+    ps = [t for t in template_texts(rnd) if wellformed(t)][:12] + [bytes(rnd.randrange(256) for _ in range(rnd.randrange(1, 90))).hex() for _ in range(12)]
+    world.run_threads(out, "several-threads-from-the-first-call-on", "props.c04", "impl", [[p] for p in ps], lib.run_model([lib.req("sign_spec", p) for p in ps]),
+                      lambda c: "sign(%r)" % (c[0][:60] if c else "?"), startups=32 if tier == "quick" else 600, threads=6, rounds=3)
     # the model's table-driven CRC against binascii.crc_hqx directly (the external call the model replaces)
     bufs = [bytes(rnd.randrange(256) for _ in range(rnd.randrange(0, 300))) for _ in range(300)]
     inits = [0x1021, 0, 0xffff] + [rnd.randrange(65536) for _ in range(297)]
@@ -203,4 +207,8 @@ def run(tier, rnd, out):
     out.exhaustive = True
     out.notes.append("thorough enumerates all 65 793 byte strings of length 0..2 and every single-bit flip of three real frames")
 
-def replay(rp, out): run_cases(rp.get("stream", "sign"), [rp["input"]], out)
+def replay(rp, out):
+    if "threads" in rp.get("stream", ""):
+        import random
+        return run("quick", random.Random(int(rp.get("seed", 1))), out)
+    run_cases(rp.get("stream", "sign"), [rp["input"]], out)
